@@ -18,8 +18,10 @@ import (
 
 // C05 / C02 — the StateDB: journal, snapshots, revert, commit against the real EVM keeper.
 // Ops (shared with lean/HaqqModel/Driver/C05.lean):
-//   sreset b0 b1 b2 | addbal a x | subbal a x | setnonce a v | setstate a k v | addrefund g | subrefund g | addlog |
-//   suicide a | accaddr a | accslot a k | snap | revert id | commit | bank a +|- x | dump
+//
+//	sreset b0 b1 b2 | addbal a x | subbal a x | setnonce a v | setstate a k v | addrefund g | subrefund g | addlog |
+//	suicide a | accaddr a | accslot a k | snap | revert id | commit | bank a +|- x | dump
+//
 // addresses 0..5 (0..2 exist and are funded), storage keys 0..2
 const c05N, c05K = 6, 3
 
